@@ -8,7 +8,16 @@ import (
 	"time"
 
 	"github.com/attestantio/vouch/internal/vnd"
+	nullmetrics "github.com/attestantio/vouch/services/metrics/null"
+	"github.com/rs/zerolog"
 )
+
+// c02New builds the scheduler the way main does: through New.
+func c02New() *Service {
+	s, err := New(context.Background(), WithLogLevel(zerolog.Disabled), WithMonitor(&nullmetrics.Service{}))
+	vnd.Assert(err == nil && s != nil, "C02.new.accepted")
+	return s
+}
 
 func c02Delay(name string) time.Duration {
 	d := time.Duration(vnd.I64(name))
@@ -19,7 +28,7 @@ func c02Delay(name string) time.Duration {
 // VerifC02_OneOff: a one-off job that is not cancelled runs exactly once,
 // whether started by its timer, by RunJob, or by both at the same instant.
 func VerifC02_OneOff() {
-	s := &Service{jobs: make(map[string]*job)}
+	s := c02New()
 	ctx := context.Background()
 	runs := 0
 	T := c02Delay("job.delay")
@@ -63,7 +72,7 @@ func VerifC02_OneOff() {
 // VerifC02_Cancel: a job cancelled clearly before its time never runs; a
 // cancellation racing with the timer or RunJob still gives at most one run.
 func VerifC02_Cancel() {
-	s := &Service{jobs: make(map[string]*job)}
+	s := c02New()
 	parent, parentCancel := context.WithCancel(context.Background())
 	runs := 0
 	T := c02Delay("job.delay")
@@ -112,7 +121,7 @@ func VerifC02_Cancel() {
 // VerifC02_Periodic: a periodic job never overlaps itself and keeps ticking
 // after an early run (bounded to two periods).
 func VerifC02_Periodic() {
-	s := &Service{jobs: make(map[string]*job)}
+	s := c02New()
 	ctx := context.Background()
 	period := c02Delay("period")
 	vnd.Assume(period > 0)
@@ -174,7 +183,7 @@ func VerifC02_CancelGroup() { c02CancelGroup(true) }
 func VerifC02_CancelGroupCancel() { c02CancelGroup(false) }
 
 func c02CancelGroup(early bool) {
-	s := &Service{jobs: make(map[string]*job)}
+	s := c02New()
 	ctx := context.Background()
 	var runs [2]int
 	var at [2]time.Duration
@@ -231,7 +240,7 @@ func c02CancelGroup(early bool) {
 // the table until it is claimed, it can be cancelled (and then never runs) or
 // started early, the first job's end does not touch it, and nothing runs twice.
 func VerifC02_Reuse() {
-	s := &Service{jobs: make(map[string]*job)}
+	s := c02New()
 	ctx := context.Background()
 	work := c02Delay("first.duration")
 	vnd.Assume(work > 0)
@@ -300,7 +309,7 @@ func VerifC02_Reuse() {
 // replacement is untouched by it: it stays in the table until it is claimed, can
 // be cancelled (and then never runs) or started early, and nothing runs twice.
 func VerifC02_CancelReschedule() {
-	s := &Service{jobs: make(map[string]*job)}
+	s := c02New()
 	ctx := context.Background()
 	var runs [2]int
 	T := c02Delay("first.delay")
